@@ -340,7 +340,7 @@ func genG02(repo string, w *Out) error {
 	var prefix, sep string
 	var suffix, tail []string
 	seenTrailerIf := false
-	for _, s := range who.Body.List {
+	for si, s := range who.Body.List {
 		src := pc.Src(s)
 		if is, ok := s.(*ast.IfStmt); ok && pc.Src(is.Cond) == "len(res.Trailer) > 0" {
 			seenTrailerIf = true
@@ -400,6 +400,11 @@ func genG02(repo string, w *Out) error {
 			tail = append(tail, lit)
 			continue
 		}
+		// the computation of the reason text (checked below) and the final return are the only other statements
+		if si < 2 || src == "return nil" {
+			continue
+		}
+		return fmt.Errorf("writeHeaderOnlyResponse: statement %q is not part of the shape the model knows", src)
 	}
 	if statusFmt == "" || !seenTrailerIf {
 		return fmt.Errorf("writeHeaderOnlyResponse: status line or trailer block not found")
